@@ -218,6 +218,107 @@ theorem sumOperand_ownedOK (sr : RollRec) (h : sr.wellOwned = true) :
     · simp [RO.ownedOK, hlist]
   · simp [RO.ownedOK, hlist]
 
+theorem wellOwnedList_append (a b : List RollRec) :
+    RollRec.wellOwnedList (a ++ b) = (RollRec.wellOwnedList a && RollRec.wellOwnedList b) := by
+  induction a with
+  | nil => simp [RollRec.wellOwnedList]
+  | cons x a ih => simp [RollRec.wellOwnedList, ih, Bool.and_assoc]
+
+theorem outcomes_allOwned_single (r : RollRec) (h : r.wellOwned = true) :
+    ∀ ro ∈ r.outcomes, ro.allOwned = true := by
+  have := outcomes_allOwned [r] (by simp [RollRec.wellOwnedList, h])
+  simpa using this
+
+theorem sourceRolls_wellOwned (r : RollRec) (h : r.wellOwned = true) :
+    RollRec.wellOwnedList r.sourceRolls = true := by
+  cases r with
+  | mk outs srs =>
+    simp only [RollRec.wellOwned, Bool.and_eq_true] at h
+    exact h.2
+
+theorem adoptAppend_allOwned (o ro : RO) (ho : o.allOwned = true) (hro : ro.allOwned = true) :
+    (RO.adoptAppend o ro).allOwned = true := by
+  cases ro with
+  | mk v srcs ow =>
+    simp only [RO.allOwned, Bool.and_eq_true] at hro
+    simp only [RO.adoptAppend, RO.allOwned, allOwnedList_append, Bool.and_eq_true]
+    refine ⟨hro.1, hro.2, ?_⟩
+    simp [RO.allOwnedList, ho]
+
+/-- the invariant of the substitution loop: yielded outcomes are hereditarily fine, appended rolls
+are well-owned -/
+def ExpandOK (res : List RO × List RollRec) : Prop :=
+  (∀ ro ∈ res.1, ro.ownedOK = true) ∧ RollRec.wellOwnedList res.2 = true
+
+theorem expandW_wellOwned (p : Int → Bool) (rollE : W RollRec)
+    (hE : AllW (fun rec => rec.wellOwned = true) rollE) (replace : Bool) :
+    ∀ (k : Nat) (roll : RollRec), roll.wellOwned = true →
+      AllW ExpandOK (expandW mkRollDeep p rollE replace k roll) := by
+  intro k
+  induction k with
+  | zero =>
+    intro roll hroll
+    rw [expandW]
+    refine AllW_pure _ _ ⟨?_, by simp [RollRec.wellOwnedList, hroll]⟩
+    intro ro hro
+    exact allOwned_ownedOK ro (outcomes_allOwned_single roll hroll ro (List.mem_filter.mp hro).1)
+  | succ k ih =>
+    intro roll hroll
+    rw [expandW]
+    have hlive : ∀ o ∈ (roll.outcomes.filter fun ro => ro.value.isSome), o.allOwned = true :=
+      fun o ho => outcomes_allOwned_single roll hroll o (List.mem_filter.mp ho).1
+    generalize (roll.outcomes.filter fun ro => ro.value.isSome) = l at hlive
+    have key : ∀ (l : List RO), (∀ o ∈ l, o.allOwned = true) →
+        ∀ (acc : W (List RO × List RollRec)), AllW ExpandOK acc →
+        AllW ExpandOK (l.foldl
+          (fun acc o => do
+            let st ← acc
+            if p (o.value.getD 0) then do
+              let er ← rollE
+              let adopted := mkRollDeep (er.outcomes.map (RO.adoptAppend o)) er.sourceRolls
+              let sub ← expandW mkRollDeep p rollE replace k adopted
+              pure (st.1 ++ [if replace then euthanize o else o] ++ sub.1, st.2 ++ sub.2)
+            else pure (st.1 ++ [o], st.2)) acc) := by
+      intro l
+      induction l with
+      | nil => intro _ acc h; simpa using h
+      | cons o l ihl =>
+        intro hl acc hacc
+        rw [List.foldl_cons]
+        apply ihl (fun o' ho' => hl o' (by simp [ho']))
+        have ho : o.allOwned = true := hl o (by simp)
+        have hoOK : o.ownedOK = true := allOwned_ownedOK o ho
+        refine AllW_bind ExpandOK ExpandOK acc _ hacc (fun st hst => ?_)
+        by_cases hp : p (o.value.getD 0) = true
+        · simp only [hp, if_true]
+          refine AllW_bind _ _ rollE _ hE (fun er her => ?_)
+          have hadopted : (mkRollDeep (er.outcomes.map (RO.adoptAppend o)) er.sourceRolls).wellOwned = true := by
+            apply mkRollDeep_wellOwned
+            · intro ro hro
+              obtain ⟨ro', hro', rfl⟩ := List.mem_map.mp hro
+              exact allOwned_ownedOK _ (adoptAppend_allOwned o ro' ho (outcomes_allOwned_single er her ro' hro'))
+            · exact sourceRolls_wellOwned er her
+          refine AllW_bind _ _ _ _ (ih _ hadopted) (fun sub hsub => ?_)
+          refine AllW_pure _ _ ⟨?_, ?_⟩
+          · intro ro hro
+            simp only [List.mem_append, List.mem_singleton] at hro
+            rcases hro with (hro | hro) | hro
+            · exact hst.1 ro hro
+            · subst hro
+              cases replace with
+              | true => exact euthanize_ownedOK o hoOK
+              | false => exact hoOK
+            · exact hsub.1 ro hro
+          · rw [wellOwnedList_append, hst.2, hsub.2]; rfl
+        · simp only [hp, Bool.false_eq_true, if_false]
+          refine AllW_pure _ _ ⟨?_, hst.2⟩
+          intro ro hro
+          simp only [List.mem_append, List.mem_singleton] at hro
+          rcases hro with hro | hro
+          · exact hst.1 ro hro
+          · subst hro; exact hoOK
+    exact key l hlive _ (AllW_pure _ _ ⟨by simp, by simp [RollRec.wellOwnedList, hroll]⟩)
+
 mutual
 /-- **C12, ownership clause (repaired `Roll.__init__`)**: in every roll any tree can produce, on
 every choice path, every outcome reachable through `sources` — in the roll and in all its source
@@ -310,6 +411,25 @@ theorem rollW_wellOwned : ∀ (r : RTree),
             simp only [hs, Option.map_some, Option.some.injEq] at hj
             subst hj
             exact euthanize_ownedOK r0 (hsorted r0 (List.mem_of_getElem? hs))) hrs)
+  | .subst p e replace maxDepth src => by
+    rw [rollW]
+    refine AllW_bind _ _ _ _ (rollW_wellOwned src) (fun sr hsr => ?_)
+    refine AllW_bind _ _ _ _ (expandW_wellOwned p _ (rollW_wellOwned e) replace maxDepth sr hsr)
+      (fun res hres => ?_)
+    exact AllW_pure _ _ (mkRollDeep_wellOwned _ _ hres.1 hres.2)
+  | .substMap p f maxDepth src => by
+    rw [rollW]
+    refine AllW_bind _ _ _ _ (rollW_wellOwned src) (fun sr hsr => ?_)
+    have hlive : ∀ o ∈ (sr.outcomes.filter fun ro => ro.value.isSome), o.ownedOK = true :=
+      fun o ho => allOwned_ownedOK o (outcomes_allOwned_single sr hsr o (List.mem_filter.mp ho).1)
+    refine AllW_pure _ _ (mkRollDeep_wellOwned _ _ ?_ (by simp [RollRec.wellOwnedList, hsr]))
+    intro ro hro
+    split at hro
+    · exact hlive ro hro
+    · obtain ⟨o, ho, rfl⟩ := List.mem_map.mp hro
+      split
+      · simp [RO.ownedOK, RO.ownedOKList, hlive o ho]
+      · exact hlive o ho
 end
 
 /-- **the pinned `Roll.__init__` violates the clause**: `2@R.from_value(H(2)) + 1` -/
